@@ -13,7 +13,8 @@ import traceback
 
 sys.path.insert(0, os.path.dirname(os.path.abspath(__file__)))
 
-from ttsa.core import Program, AnalysisError  # noqa: E402
+from ttsa.core import Program, AnalysisError, Unrecognised  # noqa: E402
+from ttsa.report import Ob  # noqa: E402
 from ttsa import props  # noqa: E402
 from ttsa.report import finish  # noqa: E402
 
@@ -31,6 +32,10 @@ def evaluate(pid, tier, prog, cache):
         if key not in cache:
             try:
                 cache[key] = fn(prog, tier)
+            except Unrecognised as e:
+                # the anchor exists but has a shape the rule does not model: no verdict from this rule
+                cache[key] = ([Ob(rname, 'trees', 'rule %s can analyse its anchor' % rname, None, str(e),
+                                  construct='unrecognised:' + rname)], {})
             except AnalysisError as e:
                 cache[key] = e
         if isinstance(cache[key], AnalysisError):
@@ -42,9 +47,11 @@ def evaluate(pid, tier, prog, cache):
         if flt:
             o = [x for x in o if flt(x)]
         floor = props.FLOORS.get('%s/%s' % (pid, rname), 1)
-        if len(o) < floor and all(x.ok for x in o):
-            errors.append('rule %s found %d instances for %s, fewer than the floor of %d derived from the '
-                          'instances confirmed by hand (anchor vanished?)' % (rname, len(o), pid, floor))
+        if len(o) == 0 and floor > 0:
+            # every instance this rule had on the tree it was built for is gone: it no longer decides anything
+            o = [Ob(rname, 'trees', 'rule %s still finds the constructs it was written for' % rname, None,
+                    'no instance found for %s (at least %d when the checker was built)' % (pid, floor),
+                    construct='vanished:' + rname)]
         obs.extend(o)
         for k, v in c.items():
             counts[k] = v
